@@ -31,6 +31,10 @@ RULE = ('chem cases: one real Chemical per case in one of 15 configurations (Cn 
         'from the real handles).  Integrals are opaque seeded tables keyed by (phase, a, b); log is a seeded '
         'rational stand-in patched into free_energy.py and ideal_mixture_model.py.  Compared: kind of _H/_S after wiring '
         '(None/functor/PhaseHandle) or the exception of _init_energies, and per query the value (1e-9 relative) or exception class. '
+        'ctor cases: a database chemical (six IDs) x phase_ref s,l,g built by ONE call of the real constructor with method= drawn from names of Hvap models, '
+        'heat-capacity-only models and an unknown name (or absent), Hvap= user value or absent, default= or absent; nothing is done to the object afterwards; '
+        'observed H/S at 4-6 (phase, T in T_ref,Tm,Tb,others, P) -- always one at Tb in l or g -- , Cn of each phase and Hvap(Tb), compared with Rewire.construct over the '
+        'generated statement order (handle answers under the default and the requested method are taken from a plainly built reference object). '
         'non-trivial = at least one query returns a number; distinct = distinct case hash')
 ASSUMPTIONS = [
     'heat-capacity handles are oracles: a handle that is truthy has total integrals T_dependent_property_integral[_over_T](a, b) '
@@ -49,6 +53,9 @@ TRUSTED = [
     'tr/C07_rewire.py translates only WHETHER (under which guard) copy, copy_models_from, at_state, the phase_ref/Tm/Tb/Hfus/Sfus setters and '
     'reset_free_energies rebuild the wiring from the chemical\'s own fields; WHAT each of them changes (coq/C07/Rewire.v: copy_maybe gives new '
     'handle objects, lock_phase, reset_constant, reset_energy_constant, the Cn/Hvap branches of copy_models_from) is modelled by hand, tie = hist cases',
+    'constructor: tr/C07_rewire.py translates the ORDER of the wiring-relevant statements of Chemical.__new__ (and that cls.new / cls.blank get free_energies=False); '
+    'what set_method(method) and default() change is by hand (Rewire.ctor_step_run: set_method switches the Hvap handle iff it has the method and leaves the Cn handles, '
+    'for names that are not sublimation-pressure models; default() on a chemical without functors ends with a rebuild), tie = ctor cases; phase= constructions are not generated',
     'of Chemical._init_data only the statement `self._Sfus = ...` is translated; the stored _Hfus/_Tm it reads are inputs of the model',
     'excess-energy functors (Excess_*; equation-of-state departure functions) are not translated: include_excess_energies is False by default',
 ]
